@@ -110,7 +110,11 @@ class World:
             kw["ensure_sorted"] = True
         else:
             px = iter([pixel_frame(c) for c in chunks]) if op["cuts"] else pixel_frame(rows)
-        call("create_cooler", cooler.create_cooler, file + "::" + group, gen.bins_df(bt), px, ordered=True,
+        bins_df = gen.bins_df(bt)
+        if op.get("catlex"):
+            # chrom column as produced by .astype("category"): categories in lexical order, not in order of appearance
+            bins_df["chrom"] = bins_df["chrom"].astype("category")
+        call("create_cooler", cooler.create_cooler, file + "::" + group, bins_df, px, ordered=True,
              symmetric_upper=sym, mode=mode, h5opts={"compression": None}, **kw)
         self._register(file, group, bt, rows, sym, "create-chunks" if sum(1 for c in chunks if c) >= 2 else "create")
 
@@ -306,12 +310,12 @@ def make_machine(ctx: Ctx):
             w.close()
 
         @rule(a=_small_cooler_args(), file=st.integers(0, 2), group=st.integers(0, 2), ncuts=st.integers(0, 4),
-              unsorted=st.sampled_from([None, None, "within-rows", "full"]), useed=st.integers(0, 999), data=st.data())
-        def create(self, a, file, group, ncuts, unsorted, useed, data):
+              unsorted=st.sampled_from([None, None, "within-rows", "full"]), useed=st.integers(0, 999), catlex=st.booleans(), data=st.data())
+        def create(self, a, file, group, ncuts, unsorted, useed, catlex, data):
             bt, sym, rows = a
             cuts = sorted(data.draw(st.lists(st.integers(0, len(rows)), min_size=ncuts, max_size=ncuts)))
             self.w.apply({"op": "create", "bt": bt, "rows": rows, "symmetric": sym, "file": file, "group": group, "cuts": cuts,
-                          "unsorted": unsorted, "unsorted_seed": useed})
+                          "unsorted": unsorted, "unsorted_seed": useed, "catlex": catlex})
 
         @rule(a=_small_cooler_args(), file=st.integers(0, 2), group=st.integers(0, 2), k=st.integers(1, 4),
               mergebuf=st.sampled_from([1, 3, 10**6]), max_merge=st.sampled_from([1, 2, 200]), data=st.data())
@@ -442,7 +446,10 @@ def check_index(case, ctx: Ctx):
             chunks = [[r for _, r in sorted(zip([(r[0], k) for r, k in zip(c, rng.rand(len(c)).tolist())], c), key=lambda t: t[0])]
                       for c in chunks]
             kw["ensure_sorted"] = True
-        call("create_cooler (small index blocks)", cooler.create_cooler, path, gen.bins_df(case["bt"]),
+        bdf = gen.bins_df(case["bt"])
+        if case.get("useed", 0) % 2:
+            bdf["chrom"] = bdf["chrom"].astype("category")      # categories in lexical order
+        call("create_cooler (small index blocks)", cooler.create_cooler, path, bdf,
              iter([pixel_frame(c) for c in chunks]), ordered=True, symmetric_upper=case["symmetric"], h5opts={"compression": None}, **kw)
     finally:
         cc.rlencode = orig
